@@ -10,7 +10,7 @@
     [parse_kind O K_TXT] is the DNS TXT record parser of scion-stack (resolver/txt.rs,
     reached through a verif-hooks entry point); it has no [Display], its "displayed form" is
     the record grammar of the module documentation ([display_txt]). *)
-From Sci Require Import Text.Model Text.Spec Text.Proofs Text.ProofsTxt.
+From Sci Require Import Text.Model Text.Spec Text.Proofs Text.ProofsTxt Text.ProofsIp.
 Local Open Scope N_scope.
 
 (** ** identifiers: display then parse is the identity, for every value of the type *)
@@ -75,6 +75,18 @@ Theorem display_parse_partial :
 Proof. intros O HO k v d. exact (kind_display_parse_all O k v d HO). Qed.
 Print Assumptions display_parse_partial.
 
+(** consequently the displayed form identifies the value *)
+Theorem display_injective_partial :
+  forall O, std_like O -> forall k v v' d,
+    val_wf k v = true -> val_named k v = true -> val_wf k v' = true -> val_named k v' = true ->
+    display_kind O k v = Some d -> display_kind O k v' = Some d -> v = v'.
+Proof.
+  intros O HO k v v' d Hw Hn Hw' Hn' Hd Hd'.
+  pose proof (kind_display_parse_all O k v d HO Hw Hn Hd) as H1.
+  pose proof (kind_display_parse_all O k v' d HO Hw' Hn' Hd') as H2. congruence.
+Qed.
+Print Assumptions display_injective_partial.
+
 (** ** all fifteen types and the TXT record: a string is accepted only if it normalises to a
     form of the value (no leading or trailing garbage, no other spelling) *)
 Theorem parse_exact :
@@ -111,10 +123,19 @@ Proof.
 Qed.
 Print Assumptions txt_display_parse.
 
-(** the assumptions on std's IP text are satisfiable *)
-Theorem ip_assumptions_satisfiable : exists O, std_like O.
-Proof. exists toy_oracle. exact toy_oracle_std_like. Qed.
+(** the assumptions on std's IP text are satisfiable: by parsers/formatters of the real syntax
+    (dotted quad; eight uncompressed hex groups) and by a toy syntax *)
+Theorem ip_assumptions_satisfiable : std_like real_oracle /\ std_like toy_oracle.
+Proof. exact (conj real_oracle_std_like toy_oracle_std_like). Qed.
 Print Assumptions ip_assumptions_satisfiable.
+
+(** non-vacuity: "[1-ff00:0:110,10.0.0.1]:80" through the dotted-quad instance *)
+Example display_parse_example_v4 :
+  display_kind real_oracle K_SOCK (VSock 561850441793808 (H4 167772161) 80) =
+    Some [91; 49; 45; 102; 102; 48; 48; 58; 48; 58; 49; 49; 48; 44; 49; 48; 46; 48; 46; 48; 46; 49; 93; 58; 56; 48] /\
+  parse_kind real_oracle K_SOCK [91; 49; 45; 102; 102; 48; 48; 58; 48; 58; 49; 49; 48; 44; 49; 48; 46; 48; 46; 48; 46; 49; 93; 58; 56; 48]
+    = Ok (VSock 561850441793808 (H4 167772161) 80).
+Proof. vm_compute. split; reflexivity. Qed.
 
 (** non-vacuity: a TXT record through the toy oracle *)
 Example txt_example :
